@@ -141,35 +141,5 @@ fn tzif_v2_try_b() {
         assert!(tz.transitions.len() == 1 && tz.local_time_types.len() == 1);
     }
 }
-// experiments: where does the version-2 cost come from?
-fn v2_small(ver2: u8, ntr: u8) -> [u8; 107] {
-    let mut b: [u8; 107] = kani::any();
-    let mut k = 0;
-    while k < 2 {
-        let o = k * 44;
-        b[o] = b'T'; b[o + 1] = b'Z'; b[o + 2] = b'i'; b[o + 3] = b'f'; b[o + 4] = if k == 0 { b'2' } else { ver2 };
-        let mut i = o + 5;
-        while i < o + 44 { b[i] = 0; i += 1; }
-        k += 1;
-    }
-    b[44 + 35] = ntr; b[44 + 39] = 1; b[44 + 43] = 4;
-    b
-}
-#[kani::proof]
-#[kani::unwind(50)]
-#[kani::stub(TransitionRule::from_tz_string, stub_small)]
-fn tzif_v2_0_1() {
-    let bytes = v2_small(b'2', 0);
-    if let Ok(tz) = TimeZone::from_tzif(&bytes[..98]) {
-        assert!(tz.transitions.len() == 0 && tz.local_time_types.len() == 1);
-    }
-}
-#[kani::proof]
-#[kani::unwind(50)]
-#[kani::stub(TransitionRule::from_tz_string, stub_small)]
-fn tzif_v2_second_v1() {
-    let bytes = v2_small(0, 1);
-    if let Ok(tz) = TimeZone::from_tzif(&bytes[..103]) {
-        assert!(tz.transitions.len() == 1 && tz.local_time_types.len() == 1);
-    }
-}
+// Also measured: a version-2 file with 0 transitions and 1 type, footer parser stubbed, everything but the 10 table bytes concrete:
+// no result in 10 minutes either.
